@@ -228,6 +228,33 @@ func doCallRaw(c call, opts []*pql.CompileOptions) result {
 	panic("unknown call kind")
 }
 
+// sameParams compares what the caller can see of an options value: nil-ness and the Parameters map
+// (an implementation may keep private state in the value; what it must not do is change the caller's map).
+func sameParams(a, b *pql.CompileOptions) bool {
+	if (a == nil) != (b == nil) {
+		return false
+	}
+	if a == nil {
+		return true
+	}
+	if (a.Parameters == nil) != (b.Parameters == nil) {
+		return false
+	}
+	return reflect.DeepEqual(a.Parameters, b.Parameters)
+}
+
+func sameOptions(a, b []*pql.CompileOptions) bool {
+	if len(a) != len(b) {
+		return false
+	}
+	for i := range a {
+		if !sameParams(a[i], b[i]) {
+			return false
+		}
+	}
+	return true
+}
+
 // doCallSafe turns a panic of the library into a result.
 func doCallSafe(c call, opts []*pql.CompileOptions) (res result) {
 	defer func() {
@@ -383,7 +410,7 @@ func (e *explorer) check(ex *rt.Execution, o *obs, prefix []int, err error) {
 	}
 	pristine := mkOptions()
 	for i := range pristine {
-		if !reflect.DeepEqual(pristine[i], o.opts[i]) {
+		if !sameParams(pristine[i], o.opts[i]) {
 			fail("parameter-map-modified", fmt.Sprintf("options value #%d changed: %+v, was %+v", i, o.opts[i], pristine[i]))
 			return
 		}
@@ -767,6 +794,41 @@ func histories(w *run.Worker, r *run.Runner, tier string) {
 			w.Fail("options-not-equivalent", src, fmt.Sprintf("pql.Compile / nil / zero / empty-map options give different results: %+v | %+v | %+v | %+v", plain, rs[0], rs[1], rs[2]), nil)
 		}
 	}
+	// the same options value reused after the caller changed the map: the result depends on the map as it is now
+	type change struct {
+		name   string
+		before map[string]string
+		apply  func(o *pql.CompileOptions)
+		after  map[string]string
+	}
+	for _, ch := range []change{
+		{"snippet replaced", map[string]string{"p": "{lo:Int32}", "n": "$2"}, func(o *pql.CompileOptions) { o.Parameters["p"] = "{hi:Int32}" }, map[string]string{"p": "{hi:Int32}", "n": "$2"}},
+		{"key swapped", map[string]string{"p": "$1", "n": "$2"}, func(o *pql.CompileOptions) { delete(o.Parameters, "p"); o.Parameters["q"] = "$3" }, map[string]string{"q": "$3", "n": "$2"}},
+		{"map replaced", map[string]string{"p": "$1"}, func(o *pql.CompileOptions) { o.Parameters = map[string]string{"p": "$9"} }, map[string]string{"p": "$9"}},
+		{"entry added", map[string]string{"p": "$1"}, func(o *pql.CompileOptions) { o.Parameters["q"] = "$2" }, map[string]string{"p": "$1", "q": "$2"}},
+		{"entry removed", map[string]string{"p": "$1", "q": "$2"}, func(o *pql.CompileOptions) { delete(o.Parameters, "q") }, map[string]string{"p": "$1"}},
+		{"map set to nil", map[string]string{"p": "$1"}, func(o *pql.CompileOptions) { o.Parameters = nil }, nil},
+	} {
+		for _, src := range []string{"T | where a > p and b < q | take n", "let p = 5; T | where a == p or b == q", "T | join (R | where y > p) on k | project p2 = q"} {
+			rt.Restore()
+			o := &pql.CompileOptions{Parameters: ch.before}
+			cp := map[string]string{}
+			for k, v := range ch.before {
+				cp[k] = v
+			}
+			o.Parameters = cp
+			first := doCallSafe(call{"compile", src, 0}, []*pql.CompileOptions{o})
+			ch.apply(o)
+			second := doCallSafe(call{"compile", src, 0}, []*pql.CompileOptions{o})
+			rt.Restore()
+			want := doCallSafe(call{"compile", src, 0}, []*pql.CompileOptions{{Parameters: ch.after}})
+			_ = first
+			if second != want {
+				w.Begin("histories", src)
+				w.Fail("options-reused-after-change", src, fmt.Sprintf("options value reused after the caller's map changed (%s): second call returns %+v, a fresh options value with the same map returns %+v", ch.name, second, want), nil)
+			}
+		}
+	}
 	depth := 3
 	if tier == "thorough" {
 		depth = 4
@@ -805,7 +867,7 @@ func histories(w *run.Worker, r *run.Runner, tier string) {
 					w.Fail("result-depends-on-history", c.src, fmt.Sprintf("call %d of history %v (%q, options #%d) returns %+v, but %+v when made first", k, seq, c.src, c.opt, got, fresh[ci]), map[string]any{"history": fmt.Sprint(seq), "calls": callsOf(seq[:k+1])})
 					return
 				}
-				if !reflect.DeepEqual(opts, pristine) {
+				if !sameOptions(opts, pristine) {
 					w.Begin("histories", fmt.Sprint(seq))
 					w.Fail("parameter-map-modified", c.src, fmt.Sprintf("after call %d of history %v the caller's options changed: %+v", k, seq, opts[c.opt]), map[string]any{"history": fmt.Sprint(seq), "calls": callsOf(seq[:k+1])})
 					return
@@ -926,7 +988,7 @@ func replayViol(w *run.Worker, v *run.Viol) {
 			w.Fail("result-depends-on-history", c.Src, fmt.Sprintf("call %d (%s %q, options #%d) returns %+v, but %+v when made first", i, c.Kind, c.Src, c.Opt, got, fresh[i]), nil)
 			return
 		}
-		if !reflect.DeepEqual(opts, pristine) {
+		if !sameOptions(opts, pristine) {
 			w.Fail("parameter-map-modified", c.Src, fmt.Sprintf("after call %d the caller's options changed: %+v", i, opts[c.Opt]), nil)
 			return
 		}
@@ -1091,7 +1153,7 @@ func pairHistories(w *run.Worker, r *run.Runner, tier string) {
 				w.Fail("result-changed-after-return:"+l.call.Kind, l.call.Src, fmt.Sprintf("the value returned by %s %q changed after %s %q: first %.200s, now %.200s", l.call.Kind, l.call.Src, q.Kind, q.Src, l.first, now), map[string]any{"pair": []call{p, q}})
 				return
 			}
-			if !reflect.DeepEqual(opts, pristine) {
+			if !sameOptions(opts, pristine) {
 				w.Fail("parameter-map-modified", q.Src, fmt.Sprintf("after %q then %q the caller's options changed", p.Src, q.Src), map[string]any{"pair": []call{p, q}})
 				return
 			}
